@@ -176,7 +176,7 @@ EXPORT errno_t _getenv_s_chk(size_t *restrict len, char *restrict dest,
             *len = len1;
 #endif
         if (dest && dmax)
-            strcpy_s(dest, dmax, buf);
+            _strcpy_s_chk(dest, dmax, buf, destbos);
     }
 
     return EOK;
